@@ -3,7 +3,7 @@ CONSTANTS
   MaxItems = 3
   Mts = {"ts", "tsx", "js", "jsx", "mjs", "dts"}
   HeaderSet = {"none", "refPath", "refTypes", "refTypesMode", "selfTypes", "jsxSource", "jsxSourceTypes", "shebangRefTypes", "refBoth"}
-  ItemSet = {"imp", "side", "impJson", "impType", "expStar", "expType", "impEq", "typeImportExpr", "declMod", "dyn", "dynTplParts", "dynJson", "req", "tsTypesImp", "tsTypesNotLast", "jsdocType", "inert"}
+  ItemSet = {"imp", "side", "impJson", "impType", "expStar", "expType", "impEq", "typeImportExpr", "declMod", "dyn", "dynTplParts", "dynJson", "req", "tsTypesImp", "tsTypesNotLast", "jsdocType", "inert", "dynDefer", "reqTpl"}
 INVARIANT ExactlyOnce
 INVARIANT EmitInv
 CHECK_DEADLOCK FALSE
